@@ -178,6 +178,7 @@ Proof.
   - destruct x; try contradiction. cbv zeta. rewrite app_length, le_bytes_length. lia.
   - apply IHt; auto.
   - apply IHt; auto.
+  - destruct x; try contradiction. rewrite le_bytes_length. apply Nat.eqb_neq in Hz. lia.
 Qed.
 
 (* ---------- sorted insertion ---------- *)
@@ -335,6 +336,8 @@ Proof.
     + left. apply flat_map_length_ge. intros; cbn; lia.
   - (* TWrap *) apply IHt; assumption.
   - (* TStruct *) apply IHt; assumption.
+  - (* TLeaf *) destruct x; try contradiction. rewrite read_uint_enc. cbn [bind fst snd].
+    rewrite Z.mod_small by lia. rewrite Hck. cbn [negb]. rewrite andb_false_r. reflexivity.
 Qed.
 
 
@@ -371,6 +374,7 @@ Proof.
   - destruct x; try contradiction. cbv zeta. rewrite zlen_app, zlen_le_bytes, zsum_ones. reflexivity.
   - apply IHt; assumption.
   - apply IHt; assumption.
+  - destruct x; try contradiction. apply zlen_le_bytes.
 Qed.
 
 (* ---------- totality ---------- *)
@@ -553,5 +557,9 @@ Proof.
     + reflexivity. + apply dec_len_seq_total. apply (read_uint_total 1). + intros xr; reflexivity.
   - (* TWrap *) cbn [dec]. intros bs. apply (IHt Hok c vl bs).
   - (* TStruct *) cbn [dec]. intros bs. apply (IHt Hok c0 vl0 bs).
+  - (* TLeaf *) eapply total_ext; [|apply (total_bind_ok _ (read_uint w)
+        (fun ur => if vl0 && negb (leaf_ok k (fst ur)) then Err EINVALID else Ok (VInt (fst ur), snd ur)))].
+    + reflexivity. + apply read_uint_total.
+    + intros xr. destruct (vl0 && negb (leaf_ok k (fst xr))); [exact I|reflexivity].
 Qed.
 
